@@ -24,6 +24,7 @@ func PipelineCase(sc E2EScenario, res E2EResult) (term string, nsteps int, ok bo
 		fs  int32
 	}
 	last := map[int32]parsed{}
+	taken := map[int32]int64{} // child.offset after the last step that was emitted
 	handoffs := map[int32]int{}
 	start := map[int32]int64{}
 	var adds []int64
@@ -83,9 +84,11 @@ func PipelineCase(sc E2EScenario, res E2EResult) (term string, nsteps int, ok bo
 			handoffs[ev.P]++
 		case "feeder.done":
 			l := last[ev.P]
+			taken[ev.P] = l.off
 			ops = append(ops, cf.App("VTake", cf.Z(int64(ev.P)), "None", cf.Nat(l.n), cf.Z(l.off), cf.Z(int64(l.fs))))
 		case "feeder.expiry":
 			l := last[ev.P]
+			taken[ev.P] = l.off
 			ops = append(ops, cf.App("VTake", cf.Z(int64(ev.P)), cf.Some(cf.Nat(handoffs[ev.P])), cf.Nat(l.n), cf.Z(l.off), cf.Z(int64(l.fs))))
 		case "feeder.resubscribe":
 			ops = append(ops, cf.App("VDrain", cf.Z(int64(ev.P))))
@@ -109,8 +112,8 @@ func PipelineCase(sc E2EScenario, res E2EResult) (term string, nsteps int, ok bo
 			msgs = StripMarks(res.Delivered)
 		}
 		off := st
-		if l, ok := last[p]; ok {
-			off = l.off
+		if o, ok := taken[p]; ok {
+			off = o
 		}
 		final = append(final, fmt.Sprintf("(%s, %s, %s)", cf.Z(int64(p)), CoqMsgs(msgs), cf.Z(off)))
 	}
